@@ -11,11 +11,17 @@ A case is a JSON-able dict
                                                               optional, default true: numpy array, false: a python list)
      "labels": {level name: "int" | "rev" | "str" | "float" | "interval" | "dt" | "cat"},   (optional, default "int"; "dt" =
                    Timestamps, "cat" = a Categorical level)
-     "name_types": {level name: "zero" | "empty" | "float0" | "tuple" | "float" | "bytes"},   (optional: the real
-                   pandas name of the level is 0 / '' / 0.0 / a tuple / a float / bytes instead of the string)
+     "name_types": {level name: "zero" | "empty" | "float0" | "tuple" | "float" | "bytes" | "one" | "true" | "float1" | "false"},
+                   (optional: the real pandas name of the level is 0 / '' / 0.0 / a tuple / a float / bytes / 1 / True / 1.0 /
+                   False instead of the string; table NAME_TYPES; "bytes" exists in the table but is not generated)
+     "name_types_prm": {level name: one of the above},   (optional: the PARAMETER's spelling of a shared level name where it
+                   differs in type from the object's but compares equal - 1 / True / 1.0, 0 / False / 0.0, EQUAL_NAME_PAIRS: ONE level)
      "share_index": true,                                               (optional: one Index object for both)
      "cells": "int" | "frac" | "i64" | "nan1",                          (optional, default "int": how a cell id becomes a value)
      "rec_labels": "str" | "int" | "float" | "tuple",                   (optional: entry labels of a one-level record Series)
+     "rec_dup": true,                                                   (optional: the record's second entry label repeats the first)
+     "droplevel": [level name of the object only, ...],                 (optional: the call is broadcast(prm, droplevel=[...]); not in the
+                   model, oracle only: _oracle_droplevel)
      "anon_plain": true,                                                (optional: unnamed levels carry the bare codes on BOTH sides)
      "outside": true}                                                   (optional: overlapping level names with a shared key missing on
                    one side = outside the property's quantifier: correspondence and 'operands unchanged' only)
@@ -29,14 +35,20 @@ the cell in row i, column j of the object has the ID 1 + i*ncols + j, of the par
 all cells are distinct and any misalignment is visible.  The VALUE of a cell is its id ("int": as a float), or
 id*1.1 + 0.007 ("frac": not whole, not representable in float32), "i64": the object's cells are int64 ids and the
 parameter's are "frac", "nan1": "frac" with one NaN cell in each operand.  The model works on ids; the harness maps
-the values that come back to ids (`value_id`), any other value is shown as it is and so disagrees.
+the values that come back to ids (`to_ids` for table rows, `plain_id` for scalars / array elements), any other value is
+shown as it is and so disagrees.
 
-Five further kinds of case (CONSUMER_KINDS) exercise the clause "every calculation built on it": {"kind": "woehler", ...}
+Six further kinds of case (CONSUMER_KINDS) exercise the clause "every calculation built on it": {"kind": "woehler", ...}
 the allowable cycles of per-element Woehler curves for per-scenario loads; {"kind": "haigh", ...} the FKM-Goodman Haigh
 diagram of several elements (meanstress.py); {"kind": "haigh-five", ...} the five-segment Haigh diagram of several elements;
 {"kind": "haigh-transform", ...} HaighDiagram.transform of per-element or disjoint cycles (with droplevel);
 {"kind": "collective-raise", ...} LoadCollective.scale / shift on index layouts on which the alignment raises (and one on
-which it does not): collective and operand unchanged, a returned result scaled / shifted row by row.
+which it does not): collective and operand unchanged, a returned result scaled / shifted row by row;
+{"kind": "matrix", ...} a rainflow matrix (from/to or range/mean classes, optionally an element_id level, any level order,
+rows sorted / shuffled / descending / a shuffled subset) x a Haigh parameter (one Series | per element | per element lacking
+the first element's row | per element with a surplus row 99 | a level `material` of its own) through
+series.meanstress_transform.fkm_goodman (matrix_oracle: class sums = the entries transformed one by one by the scalar
+function, independent of the row order; an element without diagram is refused or gets no cycles; a surplus diagram none).
 """
 import copy
 import itertools
@@ -1039,7 +1051,9 @@ def one_level_multiindex(case):
 # committed (status fixed) nothing is tolerated any more.  All three repairs are committed today (record-nonstring-entries:
 # bc2cb7f, one-level-multiindex: 190635a, contained-multi-shared-missing-key: 83030b7), no C13 class is open: the tolerance
 # is inert.  The class contained-multi-shared-missing-key uses the broader predicate `nan_level_rows`;
-# `contained_multi_missing()` above is not used.
+# `contained_multi_missing()` above is not used.  A second tolerance of the same kind sits in C13.compare: the defective
+# answer of bc2cb7f for a duplicated record label (`record_dup_defect` below) is accepted only while the class
+# record-duplicate-labels-overwritten is open; it is fixed (/repo 1eb3e33), so that tolerance is inert as well.
 PENDING = {
     "record-nonstring-entries": (record_entries_not_strings, "TypeError", ("keywords must be strings",)),
     "one-level-multiindex": (one_level_multiindex, "KeyError", ("None",)),
@@ -1818,8 +1832,14 @@ class C13(Prop):
             "permuted / disjoint / contained / overlapping with every shared key present, unnamed levels, equal lengths, int / "
             "reversed-int / string / float / interval labels) + scalar / array / record cases + consumer cases (allowable "
             "cycles, Haigh diagram, five-segment Haigh diagram (haigh-five), Haigh transform with droplevel, LoadCollective.scale / shift "
-            "on layouts where the alignment raises (collective-raise)); also generated: 7 layouts in which both operands are built from ONE shared Index "
-            "object (plus random ones); level names 0 / '' / 0.0 / tuple / float instead of strings; operands without rows (exhaustive "
+            "on layouts where the alignment raises (collective-raise), rainflow matrix x Haigh parameter through "
+            "series.meanstress_transform.fkm_goodman (matrix: one / per-element / lacking an element / surplus element / own level)); "
+            "`droplevel` cases (broadcast(prm, droplevel=[levels of the object only]): 6 layouts x 4 key patterns with and without "
+            "partner-less rows + random pairs; oracle only, no model line); records with a DUPLICATED entry label (rec_dup) against "
+            "arrays / scalars; both operands with the IDENTICAL partly unnamed MultiIndex as two Index objects (4 layouts x 3 key lists); "
+            "a shared level name spelt differently but equal on the two operands (name_types_prm: 1 / True / 1.0, 0 / False / 0.0; "
+            "6 spellings x 4 layouts); also generated: 7 layouts in which both operands are built from ONE shared Index "
+            "object (plus random ones); level names 0 / '' / 0.0 / tuple / float (random cases) and 1 / True / 1.0 / False (the equal-spelling cases) instead of strings; operands without rows (exhaustive "
             "layouts only); datetime and categorical labels; unnamed levels with the same bare codes on both sides (anon_plain); scalars as "
             "python number / numpy scalar / 0-d array and arrays as numpy array / python list; 4 % of the random cases are overlapping "
             "layouts with a shared key missing on one side (`outside` the quantifier: correspondence and operands-unchanged only); the equal "
@@ -1849,14 +1869,16 @@ class C13(Prop):
         "pd.concat({...}, names=['element_id']) makes) as two Index objects: join on the named levels, cross join on the unnamed "
         "ones (since b3ce47d; before, pandas' align took the equal coded indices row by row).  Level names that compare equal "
         "(1 / True / 1.0, 0 / False / 0.0) are ONE level, as for pandas' own look-up of a level by name; the result carries the "
-        "parameter's spelling.  Both readings are generated and are what the model says (fresh name per unnamed level; symbolic names)",
+        "parameter's spelling (observed on /repo HEAD; the oracle demands only that the level occurs exactly once, under either spelling).  Both readings are generated and are what the model says (fresh name per unnamed level; symbolic names)",
         "C13: a record's entry labels may repeat (they are fields, not keys): the record is positional in the model",
         "C13: the model describes the code after the repairs committed in /repo (b3ce47d align-equal-values, 83030b7 outer join "
         "with NaN levels, 190635a one-level MultiIndex, bc2cb7f record entries with any label, c67dac2 operands untouched, 20f8491 "
-        "level names that are not strings) and after the follow-up repairs tools/fixes/C13-record-frame-by-position.diff, "
-        "C13-restore-index-from-values.diff, C13-haigh-transform-diagram-coverage.diff; while the class of an uncommitted repair is "
-        "open in KNOWN_FINDINGS.jsonl the correspondence tolerates exactly the unrepaired answer on exactly the cases of that class "
-        "(harness/c13.py: PENDING, record_dup_defect)",
+        "level names that are not strings) and after the follow-up repairs, committed as well: 1eb3e33 (record frame built by position: "
+        "record-duplicate-labels-overwritten), 3894844 (result index rebuilt from the level values: result-index-levels-unsorted, "
+        "droplevel-partnerless-parameter-row), 226f5ce (HaighDiagram.transform refuses cycles without diagram: "
+        "matrix-element-without-haigh-diagram); all 12 C13 classes in KNOWN_FINDINGS.jsonl are fixed.  While the class of a repair is "
+        "OPEN in KNOWN_FINDINGS.jsonl the correspondence tolerates exactly the unrepaired answer on exactly the cases of that class "
+        "(harness/c13.py: PENDING, record_dup_defect); with no class open both tolerances are inert",
         "C13: exhaustive = all ordered key lists with <= 2 (thorough: 3) rows over 2 codes on the listed level-name layouts "
         "only; everything else is sampled",
     ]
@@ -2273,7 +2295,8 @@ class C13(Prop):
             gotset = {(type(n).__name__, repr(n)) for n in o.index.names if n is not None}
             n_none = sum(1 for n in want if n is None)
             if case.get("name_types_prm"):
-                # a shared name spelt 1 on one operand and True on the other is ONE level; the result carries either spelling
+                # a shared name spelt 1 on one operand and True on the other is ONE level.  The code on /repo HEAD returns the
+                # parameter's spelling (ASSUMPTIONS); the demand here is weaker: the level occurs exactly once, under either spelling
                 eq = lambda a, b: a is not None and b is not None and a == b and isinstance(a, str) == isinstance(b, str)
                 ok = all(sum(1 for g in o.index.names if eq(g, w)) == 1 for w in want if w is not None) and \
                     all(any(eq(g, w) for w in want) for g in o.index.names if g is not None)
